@@ -175,6 +175,12 @@ func (s *Session) installHooks() {
 			}
 		}
 	})
+	if s.Cfg.Hooks == "off" && len(s.gates) == 0 {
+		// no instrumentation at all: the hooks take locks of the harness (event log, scheduler state), which would
+		// order the library's goroutines for the race detector and hide races between them and the application
+		curSession.Store(nil)
+		return
+	}
 	curSession.Store(s)
 }
 
